@@ -1,8 +1,213 @@
-import Isotp.Process
+import Isotp.Proofs.Timers
 /-
-  C18 — property theorems (see DESIGN.md §6). Helper lemmas live in Isotp/Proofs.
+  C18 — listen mode never transmits and hears the same messages.
+  Helper lemmas: `Isotp/Proofs/Timers.lean` (sections "listen mode" and "a reference receiver").
+
+  Vocabulary (defined in the helper file):
+  * `State.Quiet s`       : `cfg.listen = true ∧ txQueue = [] ∧ txState = .idle`
+                            (a listener on which the user has no `send()` outstanding)
+  * `State.NotTx e`       : `e` is not an `Ev.tx` (a frame handed to `txfn`)
+  * `State.LogExt P s s'` : `s'.log = new ++ s.log`, every event of `new` satisfies `P`
+  * `RxCore`, `RxCore.step`, `State.rxCore` : the reassembly state (rxState, rxBuf, rxFrameLen, lastSeq,
+    actualRxdl, rxQueue, and what was *heard*: the deliveries and the `_process_rx` error classes of the
+    log), a reference receiver on it that knows nothing of timers / Flow Control / blocksize / STmin /
+    padding / listen mode, and the projection of a layer state onto it
+  * `State.observe s ms`  : `processRx m` then `processTx`, for each frame of `ms`
 -/
+set_option linter.unusedSimpArgs false
+set_option linter.unusedVariables false
+
 namespace Isotp.C18
 open Isotp State
 
+/-! ## 1. a listener is silent -/
+
+/-- with listen mode on, nothing queued and the transmit FSM idle, `processTx` outputs no frame — in
+    EVERY state of the receive side: Flow Control pending or not (any status), any Flow Control in the
+    mailbox (ContinueToSend, Wait, Overflow), any timer state. (`active = none` is not even needed.) -/
+theorem silent (s : State) (hl : s.cfg.listen = true) (hq : s.txQueue = []) (hi : s.txState = .idle) :
+    s.processTx.2.1 = none := (Quiet_processTx s ⟨hl, hq, hi⟩).1
+
+/-- the premises are invariant under everything but `send` -/
+theorem silent_invariant (s : State) (h : Quiet s) :
+    (∀ m, Quiet (s.processRx m).1) ∧ Quiet s.checkTimeoutsRx ∧ Quiet s.processTx.1 ∧
+    Quiet s.recv.1 ∧ Quiet s.stopReceiving ∧ (∀ ok, Quiet (s.stopSending ok)) ∧
+    (∀ dt, Quiet (s.advance dt)) ∧ (∀ dt m, Quiet (s.pushFrame dt m)) ∧
+    (∀ doRx doTx, Quiet (s.process doRx doTx).1) := by
+  refine ⟨fun m => Quiet_of_txView (txView_processRx s m) h,
+    Quiet_of_txView (txView_checkTimeoutsRx s) h, (Quiet_processTx s h).2, ?_, ?_,
+    fun ok => Quiet_stopSending s ok h, fun dt => ?_, fun dt m => ?_,
+    fun doRx doTx => (Quiet_process s doRx doTx h).1⟩
+  · unfold recv; split
+    · exact h
+    · simpa [Quiet] using h
+  · simpa [Quiet, stopReceiving] using h
+  · simpa [Quiet, advance] using h
+  · simpa [Quiet, pushFrame] using h
+
+/-- for any inbox contents and any flags, `process` on a quiet listener hands nothing to `txfn`: the log
+    grows only by events that are not `Ev.tx` -/
+theorem silent_process (s : State) (doRx doTx : Bool) (h : Quiet s) :
+    ∃ new, (s.process doRx doTx).1.log = new ++ s.log ∧ ∀ e ∈ new, ∀ t m, e ≠ Ev.tx t m :=
+  (Quiet_process s doRx doTx h).2
+
+/-- what can happen to a listener whose user never calls `send` -/
+inductive Listening (s0 : State) : State → Prop
+  | start : Listening s0 s0
+  | process {s} (doRx doTx : Bool) : Listening s0 s → Listening s0 (s.process doRx doTx).1
+  | recv {s} : Listening s0 s → Listening s0 s.recv.1
+  | stopReceiving {s} : Listening s0 s → Listening s0 s.stopReceiving
+  | advance {s} (dt : Nat) : Listening s0 s → Listening s0 (s.advance dt)
+  | pushFrame {s} (dt : Nat) (m : CanMsg) : Listening s0 s → Listening s0 (s.pushFrame dt m)
+
+/-- no bus traffic of any kind, over any number of `process` calls, makes a listener emit a frame -/
+theorem silent_forever (s0 s : State) (h0 : Quiet s0) (h : Listening s0 s) :
+    Quiet s ∧ ∃ new, s.log = new ++ s0.log ∧ ∀ e ∈ new, ∀ t m, e ≠ Ev.tx t m := by
+  induction h with
+  | start => exact ⟨h0, [], rfl, by simp⟩
+  | process doRx doTx _ ih =>
+    have := Quiet_process _ doRx doTx ih.1
+    exact ⟨this.1, LogExt.trans ih.2 this.2⟩
+  | recv _ ih =>
+    refine ⟨(silent_invariant _ ih.1).2.2.2.1, LogExt.trans ih.2 (LogExt.of_eq ?_)⟩
+    unfold State.recv; split <;> rfl
+  | stopReceiving _ ih =>
+    exact ⟨(silent_invariant _ ih.1).2.2.2.2.1, LogExt.trans ih.2 (LogExt.of_eq rfl)⟩
+  | advance dt _ ih =>
+    exact ⟨(silent_invariant _ ih.1).2.2.2.2.2.2.1 dt, LogExt.trans ih.2 (LogExt.of_eq rfl)⟩
+  | pushFrame dt m _ ih =>
+    exact ⟨(silent_invariant _ ih.1).2.2.2.2.2.2.2.1 dt m, LogExt.trans ih.2 (LogExt.of_eq rfl)⟩
+
+/-! ## 2. only a user request produces frames -/
+
+/-- in listen mode a frame coming out of `processTx` means the transmit FSM was busy with, or had queued,
+    a user request -/
+theorem user_send_only (s : State) (msg : CanMsg) (hl : s.cfg.listen = true)
+    (ho : s.processTx.2.1 = some msg) : ¬ (s.txState = .idle ∧ s.txQueue = []) := by
+  rintro ⟨hi, hq⟩
+  rw [silent s hl hq hi] at ho
+  cases ho
+
+/-- … because the pending-Flow-Control stage of `processTx` (`txPend`, the only place where a Flow
+    Control is built) never yields a frame in listen mode: it falls through to the transmit FSM -/
+theorem no_flow_control_in_listen_mode (s : State) (hl : s.cfg.listen = true) (m : CanMsg) :
+    s.txPend.2 ≠ some (some m) := txPend_listen s hl m
+
+/-! ## 3. the listener hears the same messages -/
+
+/-- `processRx`, seen through the receive-side projection, IS the reference receiver: the new reassembly
+    state, the payloads delivered, the error classes reported and the "frame received" flag depend only on
+    the old reassembly state, the size of the receive address prefix and `max_frame_size` — not on
+    `listen`, `blocksize`, `stmin`, padding, timers, or any transmit-side field -/
+theorem rx_is_reference (s : State) (m : CanMsg) :
+    (s.processRx m).1.rxCore = (RxCore.step s.addr.rx.rxPrefixSize s.cfg.maxFrameSize s.rxCore m).1 ∧
+    (s.processRx m).2.2 = (RxCore.step s.addr.rx.rxPrefixSize s.cfg.maxFrameSize s.rxCore m).2 :=
+  rxCore_processRx s m
+
+/-- two layers that agree on the reassembly state (and on the prefix size and `max_frame_size`) agree on
+    it after processing the same frame, whatever their other parameters -/
+theorem same_rx (s1 s2 : State) (m : CanMsg) (hc : s1.rxCore = s2.rxCore)
+    (hp : s1.addr.rx.rxPrefixSize = s2.addr.rx.rxPrefixSize)
+    (hm : s1.cfg.maxFrameSize = s2.cfg.maxFrameSize) :
+    (s1.processRx m).1.rxCore = (s2.processRx m).1.rxCore ∧
+    (s1.processRx m).2.2 = (s2.processRx m).2.2 := by
+  rw [(rx_is_reference s1 m).1, (rx_is_reference s2 m).1, (rx_is_reference s1 m).2,
+    (rx_is_reference s2 m).2, hc, hp, hm]
+  exact ⟨rfl, rfl⟩
+
+/-- a transmit pass does not disturb what was heard (it reports transmit-side errors only) -/
+theorem tx_pass_invisible (s : State) : s.processTx.1.rxCore = s.rxCore := rxCore_processTx s
+
+/-- a listener and a normal receiver with the same receive address observing the same frames (each
+    followed by a transmit pass — in which the receiver sends its Flow Controls and the listener does
+    not) reassemble exactly the same payloads and report the same receive errors -/
+theorem same_messages (s1 s2 : State) (ms : List CanMsg) (hc : s1.rxCore = s2.rxCore)
+    (hp : s1.addr.rx.rxPrefixSize = s2.addr.rx.rxPrefixSize)
+    (hm : s1.cfg.maxFrameSize = s2.cfg.maxFrameSize) :
+    (s1.observe ms).rxCore = (s2.observe ms).rxCore := rxCore_observe s1 s2 ms hc hp hm
+
+/-- the timer caveat: with different block sizes N_Cr is stopped and restarted at different moments
+    (at a block boundary it is stopped until the Flow Control is handed out), but after an accepted First
+    Frame or intermediate Consecutive Frame and the transmit pass that follows it at the same instant,
+    N_Cr is running from that instant — in listen mode too, where the Flow Control is not sent -/
+theorem same_timer_after_pass (s : State) (m : CanMsg) (d : Decoded) :
+    (∀ len data esc, FfAccepted s m d len data esc →
+      (s.processRx m).1.processTx.1.timerCf.start = some s.now) ∧
+    (∀ sn data, CfInSeq s m d sn data → (s.cfBuf data).length < s.rxFrameLen →
+      (s.processRx m).1.processTx.1.timerCf.start = some s.now) := by
+  have hn : (s.processRx m).1.now = s.now := by
+    have := txView_processRx s m
+    simp only [txView, TxView.mk.injEq] at this
+    exact this.2.2.1
+  refine ⟨fun len data esc h => ?_, fun sn data h hl => ?_⟩
+  · have := processRx_ff_start h
+    rw [← hn]
+    exact processTx_timerCf_of_fresh _ (Or.inl (by rw [this.2.2.2.1, hn]))
+  · have := (processRx_cf_more h hl).2.2.2.2.2.1
+    rw [← hn]
+    exact processTx_timerCf_of_fresh _ (by unfold RxFresh; rw [hn]; exact this)
+
+/-! ## non-vacuity -/
+
+def h11 : Half := { mode := .n11, txid := some 0x123, rxid := some 0x456, ta := none, sa := none, ae := none,
+                    physId := 0, funcId := 0, rxOnly := false, txOnly := false }
+def addr : Addr := { tx := h11, rx := h11 }
+/-- a listener, and a normal receiver with other block size / STmin / padding -/
+def cfgL : Cfg := { listen := true, blocksize := 0 }
+def cfgN : Cfg := { blocksize := 2, stmin := 5, txPadding := some 0xAA }
+def ff : CanMsg := { id := 0x456, ext := false, data := [0x10, 20, 1, 2, 3, 4, 5, 6] }
+def cf1 : CanMsg := { id := 0x456, ext := false, data := [0x21, 7, 8, 9, 10, 11, 12, 13] }
+def cf2 : CanMsg := { id := 0x456, ext := false, data := [0x22, 14, 15, 16, 17, 18, 19, 20] }
+def fcOvf : CanMsg := { id := 0x456, ext := false, data := [0x32, 0, 0] }
+def sf : CanMsg := { id := 0x456, ext := false, data := [3, 1, 2, 3] }
+
+/-- the premises of `silent` hold initially … -/
+example : Quiet (State.init cfgL addr) := by unfold Quiet; decide +kernel
+/-- … and in the middle of a reception with a Flow Control pending and an Overflow in the mailbox -/
+example : let s := (((State.init cfgL addr).processRx ff).1.processRx fcOvf).1
+    Quiet s ∧ s.pendingFc = true ∧ s.pendingFcStatus = some 0 ∧ (s.lastFc.map (·.status)) = some 2 ∧
+    s.processTx.2.1 = none := by unfold Quiet; decide +kernel
+/-- the normal receiver does answer the same First Frame -/
+example : (((State.init cfgN addr).processRx ff).1.processTx.2.1.map (·.data)) =
+    some [0x30, 2, 5, 0xAA, 0xAA, 0xAA, 0xAA, 0xAA] := by decide +kernel
+/-- a whole `process` with traffic in the inbox: nothing transmitted by the listener -/
+example : let s := (((State.init cfgL addr).pushFrame 0 ff).pushFrame 10 cf1).process true true
+    (s.1.log.filter fun | .tx _ _ => true | _ => false) = [] ∧ s.1.rxState = .waitCf := by
+  decide +kernel
+/-- `user_send_only`: a listener does transmit what the user sends -/
+example : let s := ((State.init cfgL addr).send { id := 1, size := 3, src := [7, 8, 9] }).1
+    s.cfg.listen = true ∧ (s.processTx.2.1.map (·.data)) = some [3, 7, 8, 9] ∧ s.txQueue ≠ [] := by
+  decide +kernel
+/-- `same_rx` / `same_messages`: hypotheses hold for the two fresh layers, and both hear the message -/
+example : (State.init cfgL addr).rxCore = (State.init cfgN addr).rxCore ∧
+    (State.init cfgL addr).addr.rx.rxPrefixSize = (State.init cfgN addr).addr.rx.rxPrefixSize ∧
+    (State.init cfgL addr).cfg.maxFrameSize = (State.init cfgN addr).cfg.maxFrameSize := by
+  decide +kernel
+example : ((State.init cfgL addr).observe [ff, cf1, cf2, sf]).rxQueue =
+      [[1, 2, 3, 4, 5, 6, 7, 8, 9, 10, 11, 12, 13, 14, 15, 16, 17, 18, 19, 20], [1, 2, 3]] ∧
+    ((State.init cfgN addr).observe [ff, cf1, cf2, sf]).rxQueue =
+      [[1, 2, 3, 4, 5, 6, 7, 8, 9, 10, 11, 12, 13, 14, 15, 16, 17, 18, 19, 20], [1, 2, 3]] := by
+  decide +kernel
+/-- `same_timer_after_pass`: hypotheses -/
+example : FfAccepted (State.init cfgL addr) ff
+    { pdu := .ff 20 [1, 2, 3, 4, 5, 6] false, canDl := 8, rxDl := 8 } 20 [1, 2, 3, 4, 5, 6] false :=
+  ⟨by decide +kernel, rfl, by decide +kernel, by decide +kernel⟩
+example : let s := ((State.init cfgN addr).processRx ff).1.processTx.1
+    CfInSeq s cf1 { pdu := .cf 1 [7, 8, 9, 10, 11, 12, 13], canDl := 8, rxDl := 8 } 1
+      [7, 8, 9, 10, 11, 12, 13] ∧ (s.cfBuf [7, 8, 9, 10, 11, 12, 13]).length < s.rxFrameLen :=
+  ⟨⟨by decide +kernel, rfl, by decide +kernel, by decide +kernel, Or.inl (by decide +kernel)⟩,
+   by decide +kernel⟩
+
 end Isotp.C18
+
+#print axioms Isotp.C18.silent
+#print axioms Isotp.C18.silent_invariant
+#print axioms Isotp.C18.silent_process
+#print axioms Isotp.C18.silent_forever
+#print axioms Isotp.C18.user_send_only
+#print axioms Isotp.C18.no_flow_control_in_listen_mode
+#print axioms Isotp.C18.rx_is_reference
+#print axioms Isotp.C18.same_rx
+#print axioms Isotp.C18.tx_pass_invisible
+#print axioms Isotp.C18.same_messages
+#print axioms Isotp.C18.same_timer_after_pass
